@@ -57,10 +57,11 @@ CHECKS["C08"] = dict(
 CHECKS["C06"] = dict(
     level="exploration",
     technique="controlled schedules: every backend call of 2-3 real Log instances passes a central gate; interleavings enumerated for small rounds and seeded for larger ones; lock-history, acknowledgement and storage monitors; generated start-up state matrix with byte-identical-stores check",
-    text="Two or three instances loaded from the same lock checkpoint (private caches, shared object store) run one round each while a scheduler releases one backend call at a time: all interleavings for pool sizes (0,0), (0,1) and all merges of the first 4-5 calls for (1,1), seeded schedules for larger/multi-tile pools and three instances. Oracle: at most one lock commit per starting checkpoint, each non-committing instance returns the fatal sequencing error and acknowledges nothing, stays unable to commit afterwards, the winner continues, the lock-committed tree is fully and exactly rendered in storage, append-only monitors hold. Start-up matrix: 15 generated states x 5 sizes must be refused by LoadLog/CreateLog with both stores unchanged; two concurrent CreateLogs under all 70 interleavings of their first four calls: exactly one succeeds.",
-    note="Interleavings are controlled at Backend/LockBackend call granularity (as the property states). The misconfigured-separate-storage variant is not covered. Trusted: harness CAS store, gate scheduler, reference renderer.",
+    text="Two or three instances loaded from the same lock checkpoint (private caches, shared object store) run one round each while a scheduler releases one backend call at a time: all interleavings for pool sizes (0,0), (0,1) and all merges of the first 4-5 calls for (1,1), seeded schedules for larger/multi-tile pools and three instances. Oracle: at most one lock commit per starting checkpoint, each non-committing instance returns the fatal sequencing error and acknowledges nothing, stays unable to commit afterwards, the winner continues, the lock-committed tree is fully and exactly rendered in storage, append-only monitors hold. Start-up matrix: 15 generated states x 5 sizes must be refused by LoadLog/CreateLog with both stores unchanged; two concurrent CreateLogs under all 70 interleavings of their first four calls: exactly one succeeds. Misconfigured object storage: a second instance with the same key and lock store but ANOTHER bucket (exact copy, copy taken between lock commit and publication, copy 1-3 rounds behind, copy without checkpoint / tiles, empty): refused LoadLog/CreateLog leave lock store and first bucket untouched; when both load they race one round under seeded gate schedules: one commit, loser fatal and silent, whatever either publishes was lock-committed first, the winner's bucket is complete, a restarted loser never loads a bucket that lacks the committed tree.",
+    note="Interleavings are controlled at Backend/LockBackend call granularity (as the property states). The second bucket is a key namespace of the same in-memory store. Trusted: harness CAS store, gate scheduler, reference renderer.",
     design_ref="DESIGN.md section 3, C06",
-    parts=[P("schedules", "^TestC06Schedules$", shards=(8, 16)), P("startup", "^TestC06Startup$", shards=(2, 4))],
+    parts=[P("schedules", "^TestC06Schedules$", shards=(8, 16)), P("startup", "^TestC06Startup$", shards=(2, 4)),
+           P("secondbucket", "^TestC06SecondBucket$", shards=(4, 16))],
     floor=150,
 )
 
